@@ -234,20 +234,19 @@ class Run:
     def obj(self, ref):
         return self.heap[ref.oid]
 
-    def solver(self):
-        s = z3.Solver()
-        s.set("timeout", 400)
-        for f in self.ctx.facts:
-            s.add(f)
-        for p in self.pc:
-            s.add(p)
+    def solver(self, extra=()):
+        from . import smt
+        s, risky = smt.lifted_solver(list(self.ctx.facts) + list(self.pc) + list(extra), 400)
+        s.risky = risky
         return s
 
     def feasible(self, cond):
-        s = self.solver()
-        s.add(cond)
+        if isinstance(cond, bool):
+            cond = z3.BoolVal(cond)
+        s = self.solver([cond])
         r = s.check()
-        return r != z3.unsat
+        # an unsat answer prunes the path: not accepted when the query could not be brought into the trusted fragment
+        return r != z3.unsat or s.risky
 
     def assume(self, cond):
         if cond is True:
@@ -287,6 +286,7 @@ class Run:
 
     def choose(self, hint=""):
         """non-deterministic binary choice (e.g. callee raises / returns)"""
+        self.n_choose = getattr(self, "n_choose", 0) + 1
         if self.pos < len(self.decisions):
             d = self.decisions[self.pos]
             self.pos += 1
@@ -679,7 +679,8 @@ class Interp:
                 saved_pc = len(self.run.pc)
                 rhs = self.ev_guarded(nxt, fr, t if is_and else NOT(t))
                 if is_bool(cur) and is_bool(rhs):
-                    cur = AND(t, zbool(rhs)) if is_and else OR(t, zbool(rhs))
+                    r_ = rhs if isinstance(rhs, bool) else zbool(rhs)
+                    cur = AND(t, r_) if is_and else OR(t, r_)
                     if isinstance(cur, bool):
                         pass
                 else:
@@ -859,8 +860,18 @@ class Interp:
             return a.oid == b.oid
         raise Unsupported("'is' on %r / %r" % (a, b))
 
+    def mapkey(self, k):
+        """key of a symbolic dict as an integer term: integers as they are, strings by their interned code"""
+        if isinstance(k, str):
+            return z3.IntVal(self.ctx.intern(k))
+        if isinstance(k, SStr):
+            return k.t
+        return b2i(z(k))
+
     def contains(self, container, item, node=None):
         run = self.run
+        if tag(container) == "mapkeys":
+            return z3.Select(run.obj(container[1]).dom, self.mapkey(item))
         if isinstance(container, tuple):
             return OR(*[run.eq(item, x) for x in container])
         if isinstance(container, Ref):
@@ -870,9 +881,12 @@ class Interp:
             if isinstance(o, HDict):
                 if isinstance(item, (str, int)):
                     return item in o.items
+                if is_z3(item) and item.sort() == INT and all(isinstance(k, str) for k in o.items):
+                    # a key given by its integer code (specifications quantify over keys as integers)
+                    return OR(*[item == self.ctx.intern(k) for k in o.items])
                 return OR(*[run.eq(item, k) for k in o.items])
             if isinstance(o, HMap):
-                return z3.Select(o.dom, b2i(z(item)))
+                return z3.Select(o.dom, self.mapkey(item))
         m = self.ctx.models.contains_hook(self, container, item, node)
         if m is not NotImplemented:
             return m
@@ -957,6 +971,8 @@ class Interp:
         m = self.ctx.models.attr_hook(self, base, None, attr, node)
         if m is not NotImplemented:
             return m
+        if base is None:
+            raise PyRaise("AttributeError", "'NoneType' object has no attribute %r" % attr)
         raise Unsupported("attribute %s of %r" % (attr, base), node)
 
     def setattr(self, base, attr, val, fr, node=None):
@@ -1073,14 +1089,18 @@ class Interp:
                     return o.items[idx]
                 if isinstance(idx, SStr) or is_z3(idx):
                     keys = list(o.items)
+                    if is_z3(idx) and idx.sort() == INT and all(isinstance(k, str) for k in keys):
+                        keq = lambda k: idx == self.ctx.intern(k)     # key given by its integer code
+                    else:
+                        keq = lambda k: run.eq(idx, k)
                     run.oblige("key-present@%s" % getattr(node, "lineno", "?"),
-                               OR(*[run.eq(idx, k) for k in keys]), kind="safety")
+                               OR(*[keq(k) for k in keys]), kind="safety")
                     res = o.items[keys[-1]]
                     for k in reversed(keys[:-1]):
-                        res = run.ite(zbool(run.eq(idx, k)), o.items[k], res)
+                        res = run.ite(zbool(keq(k)), o.items[k], res)
                     return res
             if isinstance(o, HMap):
-                k = b2i(z(idx))
+                k = self.mapkey(idx)
                 run.oblige("key-present@%s" % getattr(node, "lineno", "?"), z3.Select(o.dom, k), kind="safety")
                 return self.ctx.models.map_get(self, o, k)
         m = self.ctx.models.getitem_hook(self, base, idx, node)
@@ -1154,7 +1174,7 @@ class Interp:
                     o.items[idx] = val
                     return
             if isinstance(o, HMap):
-                self.ctx.models.map_set(self, o, b2i(z(idx)), val)
+                self.ctx.models.map_set(self, o, self.mapkey(idx), val)
                 return
         m = self.ctx.models.setitem_hook(self, base, idx, val, node)
         if m is not NotImplemented:
